@@ -138,8 +138,12 @@ def _replace_stmt(tree, old):
 import signal
 
 
+class SweepTimeout(BaseException):
+    pass
+
+
 def _alarm(signum, frame):
-    raise TimeoutError()
+    raise SweepTimeout()
 
 
 signal.signal(signal.SIGALRM, _alarm)
@@ -166,7 +170,7 @@ def run_one(args):
             mod.check(rep, model, 'quick')
             signal.alarm(0)
             engine.report_pyerrors(rep)
-        except TimeoutError:
+        except SweepTimeout:
             fired[pid] = 'engine:TIMEOUT'
             print('TIMEOUT', label, pid, flush=True)
             continue
